@@ -112,7 +112,7 @@ def run(ctx):
   ctx.model('MC_LSML', 'MC_LSML.cfg', workers=8)
   rng = np.random.default_rng(ctx.seed + 12)
   rs = []
-  for i in range(16 if ctx.quick else 288):
+  for i in range(16 if ctx.quick else 576):
     rs.append(dict(supervised=bool(i % 4 == 3), n=5 if ctx.quick else 10, seed=int(rng.integers(1 << 30))))
   ctx.rule = ('random quadruplet sets x priors {identity, covariance, random, SPD array} x weights {None, array, list} x tol in '
               '{1e-3, 1e-5} x {run to the stopping rule, 1-3 iterations, all constraints satisfied under any metric}; LSML and '
